@@ -84,9 +84,14 @@ def replay(rep, runs, binaries, what, prop, gc="default", known_ok=True):
     ncmp = 0
     for bname, binary in binaries:
         impl = mrun.impl_run(binary, progs, gc=gc)
+        base = impl.get(mrun.BASE_ID)
         for r in usable:
             msg = mrun.compare(r, impl[r["id"]])
             ncmp += 1
+            if not msg and not r["trig"]:
+                msg = mrun.compare_heap(r, impl[r["id"]], base)
+                if r.get("heap", {}).get("exact"):
+                    rep.add("heaps_compared_with_the_reachable_set", 1)
             if not msg:
                 continue
             keys = {TRIGGER_FINDING[t] for t in r["trig"] if t in TRIGGER_FINDING}
